@@ -6,7 +6,9 @@
 // hook point, or gate-controlled at the hook point.
 // Part 2: two-node harness: over all values a node received, each physical
 // stream is returned to at most one accepting caller and an accepted stream is
-// never closed through a solicitation value.
+// never closed through a solicitation value; includes scenarios in which one of
+// several matching resolvers rejects the value (AddValue ok=false) or is
+// released while the match is being resolved.
 package c31
 
 import (
@@ -187,7 +189,7 @@ type gateCtl struct {
 func TestCheck(t *testing.T) {
 	r := vf.Start(t, "C31", vf.Exploration)
 	defer r.Finish()
-	r.SetRule("Part 1: PRNG histories of 2-4 goroutines with <= 6 accept/close calls on ONE fresh SolicitMountedStream value wrapping a harness stream that counts Close calls; three schedule families: free-running from a barrier, yielding (Gosched) at the verif hook point inside AcceptMountedStream, and gate-controlled (one accept is parked at the hook point while all other goroutines run to completion, then released). Call/return are stamped from one atomic counter; porcupine decides linearizability against the model {open, accepted, closed}: accept: open->accepted returns the stream, accepted->(nil,true,nil), closed->error and no stream; close: open->closed returns true, accepted->false, closed->any. Also: a stream that was returned by an accept has Close count 0. Non-trivial = history containing both an accept and a close on >= 2 goroutines; distinct = distinct (spec, observed interleaving). Part 2: two-node harness (see C30) with several local directives of equal (protocol id, context) and different constraints; all values of a node are accepted / closed concurrently; per physical stream successful accepts <= 1 and an accepted stream has Close count 0. Non-trivial = scenario where at least one stream matches >= 2 local directives")
+	r.SetRule("Part 1: PRNG histories of 2-4 goroutines with <= 6 accept/close calls on ONE fresh SolicitMountedStream value wrapping a harness stream that counts Close calls; three schedule families: free-running from a barrier, yielding (Gosched) at the verif hook point inside AcceptMountedStream, and gate-controlled (one accept is parked at the hook point while all other goroutines run to completion, then released). Call/return are stamped from one atomic counter; porcupine decides linearizability against the model {open, accepted, closed}: accept: open->accepted returns the stream, accepted->(nil,true,nil), closed->error and no stream; close: open->closed returns true, accepted->false, closed->any. Also: a stream that was returned by an accept has Close count 0. Non-trivial = history containing both an accept and a close on >= 2 goroutines; distinct = distinct (spec, observed interleaving). Part 2: two-node harness (see C30) with several local directives of equal (protocol id, context) and different constraints; all values of a node are accepted / closed concurrently; per physical stream successful accepts <= 1 and an accepted stream has Close count 0. A block of REJECT scenarios (own batches): one node holds 2-3 requests with the same (protocol id, context) and different link-admitting constraints, the other node solicits the pair, and one of the matching resolvers rejects the value or goes away around the match, in seven patterns: every consumer accepts INSIDE the delivering AddValue call and then closes its siblings' bus instances (directive.Instance.Close, or Reference.Release + CloseIfUnreferenced) so that controllerbus answers the controller's next AddValue of the same match with ok=false; only one consumer does that; one request is registered with the controller directly (Controller.HandleDirective + Resolver.Resolve) with a harness directive.ResolverHandler that rejects every value, or has a hard cap of one value over two links; one bus request is closed by the harness at the moment the solicited stream is handed to its node's controller (synchronously, or from a free-running goroutine); static and dynamic (remote request last, after a quiescence). Oracle for all two-node scenarios: per physical stream at most one successful accept over all values and consumers of the node (accepts inside the delivery included), a stream that some accept returned has Close count 0 at its node's end at the end, and the Close count read when an accept returns a stream is 0 (a closed stream is never handed over). Non-trivial = scenario where at least one stream matches >= 2 local directives")
 
 	part1(r)
 	g10sol.RunTwoNodeC31(r)
